@@ -1630,6 +1630,10 @@ impl Tree {
 
 		// Step 2: Reload in-memory state to match restored files
 
+		// Table ids and value-log offsets of the discarded timeline will be used
+		// again by the restored one: nothing cached under them may survive.
+		self.core.inner.opts.block_cache.clear();
+
 		// Create a new LevelManifest from the current path
 		let new_levels = LevelManifest::new(Arc::clone(&self.core.inner.opts))?;
 
